@@ -175,6 +175,35 @@ def run(chk):
         if a[0] != b[0] or (a[0] == "Ok" and not (C.all_close([lam * x for x in a[1]], b[1], rtol=1e-12, atol=0) and C.all_close([lam * x for x in a[2]], b[2], rtol=1e-12, atol=0))):
             chk.fail("multiplying N0 and the escape rate by the same factor multiplies every count by that factor (ejection towards a BH mass-fraction target)",
                      dict(M=M, N=N, Mtot=Mtot, f_BH=f, lam=lam), dict(base=a[:3], scaled=b[:3]))
+    # natal kicks: the retained fraction of a bin depends on its MEAN mass only, so scaling mass and number of every bin scales what is kept and
+    # what is ejected (bins stay on the same side of the 0.1-object threshold: N >= 0.15, factors >= 2)
+    from ssptools import kicks as kicks_
+    for _ in range(60 if chk.tier == "quick" else 600):
+        nb_ = rng.choice([3, 5, 8])
+        N = [rng.choice([0.15, 0.3, 0.6, 0.84, 1.5, 3.0, 40.0]) for _ in range(nb_)]
+        mbar = sorted(rng.uniform(4.0, 45.0) for _ in range(nb_))
+        M = [n_ * m_ for n_, m_ in zip(N, mbar)]
+        lam = rng.choice([2.0, 8.0, 128.0])
+        kwk = rng.choice([dict(method="maxwellian", vesc=rng.choice([30.0, 90.0, 200.0]), FeH=rng.choice([-2.0, -1.0, 0.0])),
+                          dict(method="sigmoid", slope=rng.choice([0.5, 1.0]), scale=rng.choice([10.0, 20.0]))])
+        outs_ = []
+        for f_ in (1.0, lam):
+            Mx, Nx = np.array([f_ * x for x in M]), np.array([f_ * x for x in N])
+            try:
+                r_ = kicks_.natal_kicks(Mx, Nx, **kwk)
+                outs_.append((np.array(r_[0], dtype=float), np.array(r_[1], dtype=float), float(r_[2])))
+            except Exception as e:  # noqa
+                outs_.append(type(e).__name__)
+        chk.count("natal-kick scale pairs on sparsely populated bins")
+        if isinstance(outs_[0], str) or isinstance(outs_[1], str):
+            if outs_[0] != outs_[1]:
+                chk.fail("multiplying N0 and the escape rate by the same factor multiplies every count by that factor (natal kicks)", dict(M=M, N=N, lam=lam, kicks=kwk),
+                         dict(base=str(outs_[0])[:60], scaled=str(outs_[1])[:60]))
+            continue
+        (M1, N1, e1), (M2, N2, e2) = outs_
+        if not (np.allclose(M2, lam * M1, rtol=1e-10, atol=0) and np.allclose(N2, lam * N1, rtol=1e-10, atol=0) and abs(e2 - lam * e1) <= 1e-9 * max(abs(lam * e1), 1e-300)):
+            chk.fail("multiplying N0 and the escape rate by the same factor multiplies every count by that factor (natal kicks)", dict(M=M, N=N, lam=lam, kicks=kwk),
+                     dict(kept_mass=[float(x) for x in M1], kept_mass_scaled_over_lam=[float(x) / lam for x in M2], ejected=[e1, e2 / lam]))
     # ---- full constructions ---------------------------------------------------------------------
     nrun = 3 if chk.tier == "quick" else 20
     classes = [("EvolvedMF", {}), ("EvolvedMFWithBH", dict(f_BH=0.002)), ("EvolvedMF", dict(natal_kicks=True, BH_ret_dyn=0.2, vesc=150))]
